@@ -33,7 +33,7 @@ import leanio
 
 PROP_FILES = ["C03", "C06", "C07", "C09", "C10", "C18", "BFULL2"]
 MARK = "wp2_bfull2"
-MARKS = ["wp2_bfull2", "wp2b_affix", "wp2b_vspace", "wp2b_indent", "wp2c_selstable", "wp2c_vspace"]
+MARKS = ["wp2_bfull2", "wp2b_affix", "wp2b_vspace", "wp2b_indent", "wp2c_selstable", "wp2c_vspace", "wp2d_vspace"]
 PROCS = int(os.environ.get("BFULL2_PROCS", "5"))
 
 # ------------------------------------------------------------------ Lean side
